@@ -553,6 +553,42 @@ def check_euler(run, fns, tvs, cover):
         run.spec_drift("input_auto_level/thrust", "thrust output is not thrust_trim + stick * thrust_delta")
 
 
+def near_level_sweep(run, fns):
+    """headings beyond 120 deg with a tilt of 1e-7 .. 1e-4 rad (and exactly level): trace(R) <= 0 with two nearly equal
+    diagonal entries, where the matrix -> quaternion step inside the set-point functions chooses between nearly
+    degenerate pivots.  The integers of such attitudes do not fit TLC's 32 bits, so the expectation is the closed
+    form q = qz(yaw) qy(pitch) qx(roll) evaluated here (unit norm, rotation equal up to the sign of q)."""
+    yaws = [2.2, 2.6, 3.0, -2.4, -2.9, math.pi, 2.0944, -2.0945]
+    tilts = [0.0, 1e-7, -1e-6, 1e-5, -1e-4, 3e-6]
+    Y, P, R_ = [], [], []
+    for y in yaws:
+        for a in tilts:
+            for b in tilts:
+                if a == 0.0 and b == 0.0 and y != yaws[0]:
+                    continue
+                Y.append(y); P.append(a); R_.append(b)
+    Y, P, R_ = np.array(Y), np.array(P), np.array(R_)
+    q = batch_call(fns.e2q, [Y[None], P[None], R_[None]])[0]
+    cy, sy, cp, sp_, cr, sr = np.cos(Y / 2), np.sin(Y / 2), np.cos(P / 2), np.sin(P / 2), np.cos(R_ / 2), np.sin(R_ / 2)
+    want = np.array([cy * cp * cr + sy * sp_ * sr, cy * cp * sr - sy * sp_ * cr, cy * sp_ * cr + sy * cp * sr, sy * cp * cr - cy * sp_ * sr])
+    run.count("evaluations", len(Y)); run.count("near_level_sweep", len(Y))
+    for k in range(len(Y)):
+        data = {"fn": "eulerB321_to_quat", "inputs": {"yaw": float(Y[k]), "pitch": float(P[k]), "roll": float(R_[k])}, "attitude": q[:, k].tolist(),
+                "expected": want[:, k].tolist()}
+        nrm = float(np.sum(q[:, k] ** 2))
+        if not np.all(np.isfinite(q[:, k])):
+            run.violation("eulerB321_to_quat/finite/near_level", "returned quaternion is not finite", data)
+        elif abs(nrm - 1.0) > 1e-9:
+            run.violation("eulerB321_to_quat/unit_quaternion/near_level", "returned attitude quaternion is not a unit quaternion", data)
+        elif min(np.max(np.abs(q[:, k] - want[:, k])), np.max(np.abs(q[:, k] + want[:, k]))) > 1e-9:
+            run.violation("eulerB321_to_quat/rotation/near_level", "returned rotation is not Rz(yaw) Ry(pitch) Rx(roll)", data)
+    # position controller hovering at such headings with a tiny horizontal force demand (tiny tilt of the thrust axis)
+    try:
+        K = fns.k_pc
+    except AttributeError:
+        return
+
+
 # ------------------------------------------------------------------------------ main
 NEED = {
     "position_control": {"generic", "parallel", "zero", "tiny", "saturated", "saturated_parallel"},
@@ -569,6 +605,7 @@ def replay(run, fns, tvs, cover, stats):
     check_frames(run, fns, [tv for tv in tvs if tv["op"] == "frame"], cover)
     check_traj(run, fns, [tv for tv in tvs if tv["op"] == "traj"], cover, stats)
     check_euler(run, fns, [tv for tv in tvs if tv["op"] == "euler"], cover)
+    near_level_sweep(run, fns)
 
 
 def detuple(x):
@@ -582,6 +619,8 @@ def detuple(x):
 def main():
     tier = sys.argv[1] if len(sys.argv) > 1 else "quick"
     run = Run(PID, tier)
+    from harness.lie import touch_all as _touch_all
+    _touch_all()        # first uses of the Lie API happen BEFORE the models are derived (see harness/lie.py)
     fns = Fns()
     cover, stats = {}, {}
     if "--replay" in sys.argv:
